@@ -37,6 +37,7 @@
 #if defined(__has_feature)
 #if __has_feature(memory_sanitizer)
 #define C12_MSAN 1      /* MemorySanitizer build: filling would mark the memory initialised and blind the tool */
+#include <sanitizer/msan_interface.h>
 #endif
 #endif
 static int g_fill = -1;
@@ -226,6 +227,12 @@ static uint64_t fnv(const void *p, size_t n)
 }
 static void rec_payload(Rec *r, const void *p, long n)
 {
+#ifdef C12_MSAN
+   if (n > 0) {                 /* an output byte computed from uninitialised memory is a finding even if no branch used it */
+      long k = (long)__msan_test_shadow(p, (size_t)n);
+      if (k >= 0) { printf("MSAN-OUTPUT byte %ld of %ld of an output (packet / PCM) depends on uninitialised memory\n", k, n); fflush(stdout); __msan_print_shadow((const char *)p + k, 1); exit(9); }
+   }
+#endif
    r->len = n; r->h = fnv(p, n > 0 ? n : 0);
    memset(r->head, 0, sizeof r->head);
    if (n > 0) memcpy(r->head, p, n < (long)sizeof r->head ? n : (long)sizeof r->head);
